@@ -6,6 +6,7 @@ package ir
 import (
 	"go/constant"
 	"go/token"
+	"go/types"
 
 	"golang.org/x/tools/go/ssa"
 )
@@ -14,23 +15,29 @@ import (
 type Pt struct {
 	B *ssa.BasicBlock
 	I int
+	// From: the block the point is entered from (I must be 0): lets a reachability query that starts on one side
+	// of a branch know what the phis of B are on that edge.
+	From *ssa.BasicBlock
 }
+
+// EdgePt is the start of successor `succ` of block b, entered over that edge.
+func EdgePt(b *ssa.BasicBlock, succ int) Pt { return Pt{B: b.Succs[succ], I: 0, From: b} }
 
 // At returns the point of an instruction.
 func At(in ssa.Instruction) Pt {
 	b := in.Block()
 	for i, o := range b.Instrs {
 		if o == in {
-			return Pt{b, i}
+			return Pt{B: b, I: i}
 		}
 	}
-	return Pt{b, 0}
+	return Pt{B: b, I: 0}
 }
 
 // After returns the point just after an instruction.
 func After(in ssa.Instruction) Pt {
 	p := At(in)
-	return Pt{p.B, p.I + 1}
+	return Pt{B: p.B, I: p.I + 1}
 }
 
 // Entry is the entry point of a function.
@@ -38,7 +45,7 @@ func Entry(fn *ssa.Function) Pt {
 	if len(fn.Blocks) == 0 {
 		return Pt{}
 	}
-	return Pt{fn.Blocks[0], 0}
+	return Pt{B: fn.Blocks[0], I: 0}
 }
 
 // Opts steers Reach.
@@ -347,39 +354,235 @@ func threadedSucc(b, from *ssa.BasicBlock) int {
 	return -1
 }
 
+// phiEnv: the constants (or nil / known-non-nil facts) that phis have on the path being explored. It is what makes
+// Reach path-sensitive for flags: `found := false … found = true; break … if found`, also through chains of phis.
+type phiEnv struct {
+	vals map[*ssa.Phi]ssa.Value // *ssa.Const, or any value for which KnownNonNil holds
+	sig  string
+}
+
+func (e phiEnv) with(b, from *ssa.BasicBlock) phiEnv {
+	if from == nil {
+		return e
+	}
+	var phis []*ssa.Phi
+	for _, in := range b.Instrs {
+		ph, ok := in.(*ssa.Phi)
+		if !ok {
+			break
+		}
+		phis = append(phis, ph)
+	}
+	if len(phis) == 0 {
+		return e
+	}
+	k := -1
+	for i, p := range b.Preds {
+		if p == from {
+			k = i
+		}
+	}
+	if k < 0 {
+		return e
+	}
+	nv := make(map[*ssa.Phi]ssa.Value, len(e.vals)+len(phis))
+	for p, v := range e.vals {
+		nv[p] = v
+	}
+	// phis of a block take their values simultaneously: read from the old environment
+	for _, ph := range phis {
+		in := ph.Edges[k]
+		switch x := in.(type) {
+		case *ssa.Const:
+			nv[ph] = x
+		case *ssa.Phi:
+			if v, ok := e.vals[x]; ok {
+				nv[ph] = v
+			} else {
+				delete(nv, ph)
+			}
+		default:
+			if KnownNonNil(in) {
+				nv[ph] = in
+			} else {
+				delete(nv, ph)
+			}
+		}
+	}
+	out := phiEnv{vals: nv}
+	// signature: deterministic rendering
+	type kv struct {
+		k string
+		v string
+	}
+	var parts []string
+	for p, v := range nv {
+		parts = append(parts, p.Parent().Name()+"."+p.Name()+"="+v.String())
+	}
+	sortStrings(parts)
+	for _, s := range parts {
+		out.sig += s + ";"
+	}
+	return out
+}
+
+func sortStrings(a []string) {
+	for i := 1; i < len(a); i++ {
+		for j := i; j > 0 && a[j] < a[j-1]; j-- {
+			a[j], a[j-1] = a[j-1], a[j]
+		}
+	}
+}
+
+// learn records what taking a branch says about a bool phi: after `if flag` the flag is known on both sides.
+func (e phiEnv) learn(cond ssa.Value, taken bool) phiEnv {
+	v := cond
+	for {
+		if u, isU := v.(*ssa.UnOp); isU && u.Op == token.NOT {
+			taken = !taken
+			v = u.X
+			continue
+		}
+		break
+	}
+	ph, ok := v.(*ssa.Phi)
+	if !ok {
+		return e
+	}
+	if b, isB := ph.Type().Underlying().(*types.Basic); !isB || b.Kind() != types.Bool {
+		return e
+	}
+	if _, known := e.vals[ph]; known {
+		return e
+	}
+	nv := make(map[*ssa.Phi]ssa.Value, len(e.vals)+1)
+	for p, x := range e.vals {
+		nv[p] = x
+	}
+	nv[ph] = ssa.NewConst(constant.MakeBool(taken), types.Typ[types.Bool])
+	out := phiEnv{vals: nv}
+	var parts []string
+	for p, x := range nv {
+		parts = append(parts, p.Parent().Name()+"."+p.Name()+"="+x.String())
+	}
+	sortStrings(parts)
+	for _, s := range parts {
+		out.sig += s + ";"
+	}
+	return out
+}
+
+// evalCond evaluates a branch condition under the environment: !, a phi, or one comparison of a phi with a
+// constant / nil.
+func (e phiEnv) evalCond(cond ssa.Value) (bool, bool) {
+	switch x := cond.(type) {
+	case *ssa.Const:
+		if x.Value != nil && x.Value.Kind() == constant.Bool {
+			return constant.BoolVal(x.Value), true
+		}
+	case *ssa.UnOp:
+		if x.Op == token.NOT {
+			v, ok := e.evalCond(x.X)
+			return !v, ok
+		}
+	case *ssa.Phi:
+		if v, ok := e.vals[x]; ok {
+			if c, isC := v.(*ssa.Const); isC && c.Value != nil && c.Value.Kind() == constant.Bool {
+				return constant.BoolVal(c.Value), true
+			}
+		}
+	case *ssa.BinOp:
+		l, r := x.X, x.Y
+		op := x.Op
+		if _, isPhi := r.(*ssa.Phi); isPhi {
+			l, r = r, l
+			switch op {
+			case token.LSS:
+				op = token.GTR
+			case token.GTR:
+				op = token.LSS
+			case token.LEQ:
+				op = token.GEQ
+			case token.GEQ:
+				op = token.LEQ
+			}
+		}
+		ph, isPhi := l.(*ssa.Phi)
+		if !isPhi {
+			return false, false
+		}
+		v, ok := e.vals[ph]
+		if !ok {
+			return false, false
+		}
+		switch op {
+		case token.EQL, token.NEQ, token.LSS, token.LEQ, token.GTR, token.GEQ:
+		default:
+			return false, false
+		}
+		if IsNilConst(r) {
+			if op != token.EQL && op != token.NEQ {
+				return false, false
+			}
+			switch {
+			case IsNilConst(v):
+				return op == token.EQL, true
+			case KnownNonNil(v):
+				return op == token.NEQ, true
+			}
+			return false, false
+		}
+		rc, okr := r.(*ssa.Const)
+		vc, okv := v.(*ssa.Const)
+		if !okr || !okv || rc.Value == nil || vc.Value == nil || rc.Value.Kind() != vc.Value.Kind() {
+			return false, false
+		}
+		return constant.Compare(vc.Value, op, rc.Value), true
+	}
+	return false, false
+}
+
 // Reach computes the instructions reachable from the start points.
 func Reach(starts []Pt, o Opts) Result {
 	res := Result{Reached: map[ssa.Instruction]bool{}, Stopped: map[ssa.Instruction]bool{}, RetVals: map[*ssa.Return][]constant.Value{}, RetEdges: map[*ssa.Return][]ssa.Value{}}
 	type key struct {
-		b    *ssa.BasicBlock
-		i    int
-		from *ssa.BasicBlock // only distinguished for threadable blocks
+		b   *ssa.BasicBlock
+		i   int
+		env string
 	}
 	type item struct {
 		p    Pt
 		from *ssa.BasicBlock
+		env  phiEnv
 	}
 	seen := map[key]bool{}
 	var work []item
-	push := func(p Pt, from *ssa.BasicBlock) {
+	budget := 200000
+	push := func(p Pt, from *ssa.BasicBlock, env phiEnv) {
 		if p.B == nil {
 			return
 		}
-		if ifi, _ := condPhi(p.B); ifi == nil || p.I != 0 {
-			if _, _, _, rp := retPhi(p.B); (!rp && !hasPhiReturn(p.B)) || p.I != 0 {
-				from = nil
-			}
-		}
-		k := key{p.B, p.I, from}
+		k := key{p.B, p.I, env.sig}
 		if !seen[k] {
 			seen[k] = true
-			work = append(work, item{p, from})
+			work = append(work, item{p, from, env})
 		}
 	}
 	for _, s := range starts {
-		push(s, nil)
+		if s.From != nil && s.I == 0 {
+			env := phiEnv{}
+			if n := len(s.From.Instrs); n > 0 {
+				if fi, isIf := s.From.Instrs[n-1].(*ssa.If); isIf && len(s.From.Succs) == 2 && s.From.Succs[0] != s.From.Succs[1] {
+					env = env.learn(fi.Cond, s.From.Succs[0] == s.B)
+				}
+			}
+			push(Pt{B: s.B, I: 0}, s.From, env.with(s.B, s.From))
+		} else {
+			push(Pt{B: s.B, I: s.I}, nil, phiEnv{})
+		}
 	}
-	for len(work) > 0 {
+	for len(work) > 0 && budget > 0 {
+		budget--
 		it := work[len(work)-1]
 		work = work[:len(work)-1]
 		p := it.p
@@ -388,7 +591,7 @@ func Reach(starts []Pt, o Opts) Result {
 		for i := p.I; i < len(b.Instrs); i++ {
 			in := b.Instrs[i]
 			if i > p.I {
-				k := key{b, i, it.from}
+				k := key{b, i, it.env.sig}
 				if seen[k] {
 					stopped = true
 					break
@@ -403,26 +606,12 @@ func Reach(starts []Pt, o Opts) Result {
 			res.Reached[in] = true
 			if ret, isRet := in.(*ssa.Return); isRet {
 				if ph := PhiResult(ret); ph != nil {
-					var ev ssa.Value
-					if p.I == 0 && it.from != nil {
-						for k, pr := range b.Preds {
-							if pr == it.from {
-								ev = ph.Edges[k]
-							}
-						}
-					}
-					res.RetEdges[ret] = append(res.RetEdges[ret], ev)
+					res.RetEdges[ret] = append(res.RetEdges[ret], it.env.vals[ph])
 				}
 				if r2, ph, neg, ok := retPhi(b); ok && r2 == ret {
 					var cv constant.Value
-					if p.I == 0 && it.from != nil {
-						for k, pr := range b.Preds {
-							if pr == it.from {
-								if c, isC := ph.Edges[k].(*ssa.Const); isC && c.Value != nil && c.Value.Kind() == constant.Bool {
-									cv = constant.MakeBool(constant.BoolVal(c.Value) != neg)
-								}
-							}
-						}
+					if c, isC := it.env.vals[ph].(*ssa.Const); isC && c.Value != nil && c.Value.Kind() == constant.Bool {
+						cv = constant.MakeBool(constant.BoolVal(c.Value) != neg)
 					}
 					res.RetVals[ret] = append(res.RetVals[ret], cv)
 				}
@@ -437,7 +626,20 @@ func Reach(starts []Pt, o Opts) Result {
 		if stopped {
 			continue
 		}
-		only := threadedSucc(b, it.from)
+		only := -1
+		var ifi *ssa.If
+		if len(b.Instrs) > 0 {
+			if x, isIf := b.Instrs[len(b.Instrs)-1].(*ssa.If); isIf {
+				ifi = x
+				if t, ok := it.env.evalCond(ifi.Cond); ok {
+					if t {
+						only = 0
+					} else {
+						only = 1
+					}
+				}
+			}
+		}
 		for si, s := range b.Succs {
 			if only >= 0 && si != only {
 				continue
@@ -445,7 +647,11 @@ func Reach(starts []Pt, o Opts) Result {
 			if o.EdgeOK != nil && !o.EdgeOK(b, si) {
 				continue
 			}
-			push(Pt{s, 0}, b)
+			env := it.env
+			if ifi != nil {
+				env = env.learn(ifi.Cond, si == 0)
+			}
+			push(Pt{B: s, I: 0}, b, env.with(s, b))
 		}
 	}
 	return res
